@@ -95,6 +95,7 @@ type Exec struct {
 	curBlk   *ssa.BasicBlock
 	phiOverride map[*ssa.Phi]string
 	allocAtEntry map[*ssa.BasicBlock]string
+	loops    map[*ssa.BasicBlock]*loopInfo
 }
 
 type callRec struct {
